@@ -23,10 +23,9 @@ impl<'a> Svg<'a> {
             .and_then(|index| document_list.document_records().get(index))
             .and_then(|r| {
                 let all_data = document_list.data.as_bytes();
-                all_data.get(
-                    r.svg_doc_offset.get() as usize
-                        ..(r.svg_doc_offset.get() + r.svg_doc_length.get()) as usize,
-                )
+                let start = r.svg_doc_offset.get() as usize;
+                let end = start.checked_add(r.svg_doc_length.get() as usize)?;
+                all_data.get(start..end)
             });
 
         Ok(svg_document)
@@ -106,5 +105,23 @@ mod tests {
             Some(first_document)
         );
         assert_eq!(table.glyph_data(GlyphId::new(10)).unwrap(), None);
+    }
+
+    /// `svgDocOffset + svgDocLength` used to be added as `u32` and
+    /// overflowed (a panic when overflow checks are enabled).
+    #[test]
+    fn document_range_overflowing_u32() {
+        let data: [u16; 12] = [
+            0, // Version
+            0, 10, // SVGDocumentListOffset
+            0, 0, // Reserved
+            1, // numEntries
+            0, 0, // startGlyphID, endGlyphID
+            0, 1, // svgDocOffset
+            0xFFFF, 0xFFFF, // svgDocLength
+        ];
+        let buf = BeBuffer::new().extend(data);
+        let table = Svg::read(buf.data().into()).unwrap();
+        assert_eq!(table.glyph_data(GlyphId::new(0)).unwrap(), None);
     }
 }
